@@ -283,6 +283,15 @@ func main() {
 	}
 	src = re3.ReplaceAllString(src, "MemTableSize: simMemTableSize(),")
 	emit(kvp, src)
+	// clock seam: the timestamp a leader stamps a new entry with
+	lcp := filepath.Join(*repo, "server/leader_controller.go")
+	lsrc := pending(lcp)
+	re4 := regexp.MustCompile(`(?m)^\ttimestamp := uint64\(time\.Now\(\)\.UnixMilli\(\)\)\n`)
+	if n := len(re4.FindAllStringIndex(lsrc, -1)); n != 1 {
+		die("leader_controller.go: entry timestamp site found %d times, expected 1", n)
+	}
+	lsrc = re4.ReplaceAllString(lsrc, "\ttimestamp := simEntryTimestamp(lc.namespace, lc.shardId, lc.term, uint64(time.Now().UnixMilli()))\n")
+	emit(lcp, lsrc)
 	addShimPackage("kvx", "server/kv")
 	addShimPackage("walx", "server/wal")
 	addShimPackage("serverx", "server")
